@@ -28,6 +28,12 @@ class Sentinel:
         return 'Sentinel(%d)' % self.n
 
 
+_WIRE_TYPES = {'bit', 'octet', 'short', 'long', 'longlong', 'shortstr',
+               'longstr', 'table', 'timestamp'}
+_FOREIGN = sorted(set(n for sp in refspec.METHODS.values()
+                      for n in sp.arg_names) | set(refspec.PROPERTY_NAMES))
+
+
 def shards(tier, seed):
     per = 40 if tier == 'quick' else 1500
     groups = common.split(common.ALL_INDEXES + [-1], 8)
@@ -133,6 +139,24 @@ def invariant(obj, cls, names, types, label, rec, case):
         if not t2.ok or t2.value != types[n]:
             rec.violation('amqp-type', 'instance amqp_type(%r) = %r'
                           % (n, t2.value if t2.ok else t2.describe()), case)
+            return False
+    # names that are arguments of OTHER classes are not arguments here
+    for foreign in _FOREIGN:
+        if foreign in names:
+            continue
+        t = call(cls.amqp_type, foreign)
+        if t.ok and t.value in _WIRE_TYPES:
+            rec.violation('amqp-type-for-non-argument',
+                          '%s.amqp_type(%r) = %r although %r is not one of '
+                          'its arguments %r' % (label, foreign, t.value,
+                                                foreign, list(names)[:6]),
+                          case)
+            return False
+        c = call(lambda: foreign in obj)
+        if not c.ok or c.value is not False:
+            rec.violation('contains-bogus', '%r in %s is %r'
+                          % (foreign, label, c.value if c.ok
+                             else c.describe()), case)
             return False
     rec.count('invariant_held')
     return True
